@@ -410,6 +410,271 @@ Section RoundTrip.
     - leaf (JStr s). cbn [structure structure_str].
       match goal with H : time_parse s = Some s |- _ => rewrite H end. reflexivity.
   Qed.
+  (* ======================================================================================
+     decode -> encode
+     ====================================================================================== *)
+  Hypothesis H_def : defaults_ok ct.
+  Notation CONF := (conforms b64enc dt_parse date_parse uuid_parse time_parse ct).
+  Notation REL := (rt_rel ct).
+
+  Lemma S_opt : forall j X v, j <> JNull -> opt_arg_ok X = true ->
+    (forall c, X = TData c -> exists kvs, j = JObj kvs) -> S j X = Ok v -> S j (TOpt X) = Ok v.
+  Proof.
+    intros j X v Hnn HX Hobj Hs. rewrite S_unfold in *.
+    destruct X as [| | | | | | | | | |X0|X0|X0|c|vals|c|X0]; try discriminate HX.
+    all: try (destruct j; try (exfalso; apply Hnn; reflexivity);
+              cbn [structure_node structure_str strip_opt] in *; exact Hs).
+    - destruct X0; try discriminate HX;
+        destruct j; try (exfalso; apply Hnn; reflexivity);
+        cbn [structure_node structure_str strip_opt] in *; exact Hs.
+    - destruct (Hobj c eq_refl) as [kvs ->].
+      cbn [structure_node structure_nonopt strip_opt] in *. exact Hs.
+  Qed.
+
+  Lemma U_opt : forall v X j', v <> VNone -> opt_arg_ok X = true -> U v X = Ok j' -> U v (TOpt X) = Ok j'.
+  Proof.
+    intros v X j' Hv HX Hu. rewrite U_unfold in *.
+    destruct X; try discriminate HX; destruct v; try (exfalso; apply Hv; reflexivity);
+      cbn [unstructure_node strip_opt] in *; exact Hu.
+  Qed.
+
+  (* the claim for one document and one annotation *)
+  Definition D (j : json) (T : ty) : Prop :=
+    exists v j', S j T = Ok v /\ U v T = Ok j' /\ REL T j j' /\ (j <> JNull -> v <> VNone).
+
+  Lemma D_any : forall j, D j TAny.
+  Proof.
+    intro j. exists (inject j), j. split; [apply S_any|]. split; [apply U_inject|]. split.
+    - apply R_leaf. reflexivity.
+    - intros Hj Hv. destruct j; try discriminate Hv. apply Hj. reflexivity.
+  Qed.
+
+  Lemma conforms_data_obj : forall c j, CONF (TData c) j -> exists kvs, j = JObj kvs.
+  Proof. intros c j H. inversion H; subst. eexists. reflexivity. Qed.
+
+  Lemma D_lift : forall j,
+    (forall T, is_opt T = false -> ty_ok T = true -> CONF T j -> D j T) ->
+    forall T, ty_ok T = true -> CONF T j -> D j T.
+  Proof.
+    intros j Hno T Hok Hc.
+    destruct T; try (apply Hno; [reflexivity | exact Hok | exact Hc]).
+    cbn [ty_ok] in Hok. apply andb_true_iff in Hok as [Hok1 Hok2].
+    assert (HX : opt_arg_ok T = true).
+    { destruct T; try reflexivity; try discriminate Hok2. destruct T; try reflexivity; discriminate Hok2. }
+    inversion Hc; subst.
+    - exists VNone, JNull. split; [reflexivity|]. split; [reflexivity|]. split; [apply R_null|].
+      intro H. exfalso. apply H. reflexivity.
+    - destruct (Hno T) as [v [j' [Hs [Hu [Hr Hn]]]]];
+        [destruct T; try reflexivity; discriminate Hok2 | exact Hok1 | assumption |].
+      exists v, j'. split; [|split; [|split]].
+      + apply S_opt; try assumption. intros c ->. eapply conforms_data_obj. eassumption.
+      + apply U_opt; auto.
+      + apply R_some. exact Hr.
+      + exact Hn.
+  Qed.
+
+  Lemma list_de : forall X l, Forall (fun x => D x X) l ->
+    exists vs l', map_result (fun j => S j X) l = Ok vs /\ map_result (fun v => U v X) vs = Ok l' /\
+                  Forall2 (REL X) l l'.
+  Proof.
+    intros X l H. induction H as [|x l [v [j' [Hs [Hu [Hr _]]]]] _ [vs [l' [E1 [E2 F]]]]].
+    - exists [], []. repeat split; constructor.
+    - exists (v :: vs), (j' :: l'). rewrite !map_result_cons, Hs, Hu, E1, E2.
+      repeat split. constructor; assumption.
+  Qed.
+
+  Lemma dict_de : forall X kvs, Forall (fun kv => D (snd kv) X) kvs ->
+    exists vs kvs',
+      map_result (fun kv : str * json => bind (S (snd kv) X) (fun v => Ok (fst kv, v))) kvs = Ok vs /\
+      map_result (fun kv : str * value => bind (U (snd kv) X) (fun j => Ok (fst kv, j))) vs = Ok kvs' /\
+      Forall2 (fun a b => fst a = fst b /\ REL X (snd a) (snd b)) kvs kvs'.
+  Proof.
+    intros X kvs H. induction H as [|[k x] l [v [j' [Hs [Hu [Hr _]]]]] _ [vs [l' [E1 [E2 F]]]]].
+    - exists [], []. repeat split; constructor.
+    - exists ((k, v) :: vs), ((k, j') :: l'). cbn [fst snd] in *.
+      rewrite !map_result_cons. cbn [fst snd]. rewrite Hs. cbn [bind]. rewrite E1.
+      cbn [fst snd]. rewrite Hu. cbn [bind]. rewrite E2.
+      repeat split. constructor; [split; [reflexivity | exact Hr] | exact F].
+  Qed.
+
+  Lemma default_unstructure : forall T d, default_shape T d -> exists jd, U d T = Ok jd /\ empty_json jd.
+  Proof.
+    intros T d [[-> [X ->]] | [[-> [X [-> | ->]]] | [-> [X [-> | ->]]]]].
+    - exists JNull. split; [reflexivity | left; reflexivity].
+    - exists (JArr []). split; [reflexivity | right; left; reflexivity].
+    - exists (JArr []). split; [reflexivity | right; left; reflexivity].
+    - exists (JObj []). split; [reflexivity | right; right; reflexivity].
+    - exists (JObj []). split; [reflexivity | right; right; reflexivity].
+  Qed.
+
+  Lemma NoDup_map_inj_in : forall {A B} (f : A -> B) (l : list A) x y,
+    NoDup (map f l) -> In x l -> In y l -> f x = f y -> x = y.
+  Proof.
+    intros A B f. induction l as [|a l IH]; intros x y Hnd Hx Hy E; [destruct Hx|].
+    cbn [map] in Hnd. inversion Hnd as [|? ? Hni Hnd']; subst.
+    destruct Hx as [-> | Hx], Hy as [-> | Hy]; auto.
+    - exfalso. apply Hni. rewrite E. apply in_map. exact Hy.
+    - exfalso. apply Hni. rewrite <- E. apply in_map. exact Hx.
+  Qed.
+
+  Lemma alookup_Some_In : forall {V} (l : list (str * V)) k v, alookup k l = Some v -> In (k, v) l.
+  Proof.
+    induction l as [|[k' v'] l IH]; intros k v H; [discriminate|]. cbn [alookup] in H.
+    destruct (str_eqb k k') eqn:E.
+    - apply str_eqb_eq in E. inversion H; subst. left. reflexivity.
+    - right. apply IH. exact H.
+  Qed.
+
+  Lemma alookup_None_notin : forall {V} (l : list (str * V)) k, alookup k l = None -> ~ In k (map fst l).
+  Proof.
+    induction l as [|[k' v'] l IH]; intros k H Hin; [destruct Hin|]. cbn [alookup] in H.
+    destruct (str_eqb k k') eqn:E; [discriminate|].
+    destruct Hin as [Hk | Hin]; [cbn [fst] in Hk; subst; rewrite str_eqb_refl in E; discriminate|].
+    exact (IH k H Hin).
+  Qed.
+
+  Lemma in_combine_map : forall {A B C} (f : A -> B) (g : A -> C) l x,
+    In x l -> In (f x, g x) (combine (map f l) (map g l)).
+  Proof.
+    intros A B C f g. induction l as [|a l IH]; intros x Hx; [destruct Hx|].
+    cbn [map combine]. destruct Hx as [-> | Hx]; [left; reflexivity | right; apply IH; exact Hx].
+  Qed.
+
+  Lemma map_fst_combine_map : forall {A B C} (f : A -> B) (g : A -> C) l,
+    map fst (combine (map f l) (map g l)) = map f l.
+  Proof. intros A B C f g. induction l as [|a l IH]; [reflexivity|]. cbn [map combine fst]. rewrite IH. reflexivity. Qed.
+
+  Lemma data_de : forall c k kvs,
+    lookup_cls ct c = Some k -> NoDup (map fst kvs) ->
+    (forall key v, In (key, v) kvs -> exists f, In f (c_fields k) /\ wire k f = key /\ D v (f_ty f)) ->
+    (forall f, In f (c_fields k) -> f_default f = None -> In (wire k f) (map fst kvs)) ->
+    D (JObj kvs) (TData c).
+  Proof.
+    intros c k kvs Hk Hnd Hkeys Hreq.
+    destruct (H_ct c k Hk) as [_ [[Hnd_n [Hnd_w Hdump]] [Htyok _]]].
+    pose (vf := fun f : field =>
+            match alookup (wire k f) kvs with
+            | Some jv => match S jv (f_ty f) with Ok v => v | Err => VNone end
+            | None => match f_default f with Some d => d | None => VNone end
+            end).
+    pose (jf := fun f : field => match U (vf f) (f_ty f) with Ok j => j | Err => JNull end).
+    (* per field: what is structured, what is written back, how they relate *)
+    assert (Hpt : forall f, In f (c_fields k) ->
+              (match alookup (wire k f) kvs with
+               | Some jv => S jv (f_ty f) = Ok (vf f)
+               | None => default_or_err f = Ok (vf f)
+               end) /\
+              U (vf f) (f_ty f) = Ok (jf f) /\
+              ((exists jv, alookup (wire k f) kvs = Some jv /\ REL (f_ty f) jv (jf f)) \/
+               (alookup (wire k f) kvs = None /\ empty_json (jf f)))).
+    { intros f Hf. unfold jf, vf.
+      destruct (alookup (wire k f) kvs) as [jv|] eqn:El.
+      - apply alookup_Some_In in El as Hin.
+        destruct (Hkeys _ _ Hin) as [f' [Hf' [Hw Dv]]].
+        assert (f' = f) by (apply (NoDup_map_inj_in (wire k) (c_fields k)); assumption). subst f'.
+        destruct Dv as [v [j' [Hs [Hu [Hr _]]]]]. rewrite Hs, Hu.
+        split; [reflexivity|]. split; [reflexivity|]. left. exists jv. split; [reflexivity | exact Hr].
+      - destruct (f_default f) as [d|] eqn:Ed.
+        + destruct (default_unstructure (f_ty f) d (H_def c k f d Hk Hf Ed)) as [jd [Hu He]].
+          rewrite Hu. unfold default_or_err. rewrite Ed.
+          split; [reflexivity|]. split; [reflexivity|]. right. split; [reflexivity | exact He].
+        + exfalso. apply (alookup_None_notin kvs _ El). apply Hreq; assumption. }
+    pose (names := map f_name (c_fields k)).
+    pose (fs := combine names (map vf (c_fields k))).
+    pose (kvs' := map (fun f => (wire k f, jf f)) (c_fields k)).
+    assert (Hnd' : NoDup (map fst kvs')) by (unfold kvs'; rewrite map_map; cbn [fst]; exact Hnd_w).
+    assert (Hfs_names : map fst fs = names) by (unfold fs, names; apply map_fst_combine_map).
+    exists (VData c fs), (JObj kvs'). split; [|split; [|split]].
+    - rewrite S_unfold. cbn [skl skd structure_node structure_nonopt]. unfold structure_data.
+      rewrite Hk, (H_sreg c k Hk).
+      assert (Heb : existsb (fun f => eager_bad (f_ty f)) (c_fields k) = false).
+      { apply not_true_is_false. intro He. apply existsb_exists in He as [f [Hf He]].
+        rewrite (ty_ok_not_eager _ (Htyok f Hf)) in He. discriminate. }
+      rewrite Heb. unfold pack_fields.
+      rewrite (map_result_pointwise _ vf); [reflexivity|].
+      intros f Hf. rewrite alookup_map_snd. destruct (Hpt f Hf) as [H1 _]. unfold wire in H1.
+      destruct (alookup (load_key k true (f_name f)) kvs); cbn [option_map]; exact H1.
+    - rewrite U_unfold. cbn [ukl ukd unstructure_node unstructure_nonopt]. rewrite N.eqb_refl.
+      unfold unstructure_data. rewrite Hk, (H_ureg c k Hk).
+      rewrite (map_result_pointwise _ (fun f => (wire k f, jf f))).
+      + cbn [bind]. fold kvs'. rewrite dict_of_NoDup by exact Hnd'. reflexivity.
+      + intros f Hf. rewrite alookup_map_snd.
+        rewrite (alookup_In_NoDup fs (f_name f) (vf f)).
+        * cbn [option_map]. destruct (Hpt f Hf) as [_ [Hu _]]. rewrite Hu. cbn [bind].
+          rewrite (Hdump f Hf). reflexivity.
+        * rewrite Hfs_names. exact Hnd_n.
+        * unfold fs, names. apply in_combine_map. exact Hf.
+    - apply (R_data ct c k kvs kvs' Hk).
+      + unfold kvs'. rewrite map_map. reflexivity.
+      + intros f j' Hf Hl.
+        assert (Hj : alookup (wire k f) kvs' = Some (jf f)).
+        { apply alookup_In_NoDup; [exact Hnd'|]. unfold kvs'. apply in_map_iff. exists f. auto. }
+        rewrite Hj in Hl. inversion Hl; subst j'. apply (Hpt f Hf).
+    - intros _ Hv. discriminate.
+  Qed.
+
+  (* decode then encode: every conforming document is decoded, and encoding the instance gives the
+     document back (keys in class order, absent optional keys as null / empty container) *)
+  Theorem decode_encode_core : forall j T, ty_ok T = true -> CONF T j -> D j T.
+  Proof.
+    induction j using json_ind'; apply D_lift; intros T Hno Hok Hc;
+      inversion Hc; subst; try discriminate Hno; try apply D_any.
+    all: try (eexists _, _; split; [reflexivity|]; split; [reflexivity|];
+              split; [apply R_leaf; reflexivity | intros _ ?; discriminate]).
+    - (* bytes *) exists (VBytes b), (JStr (b64enc b)). split.
+      { cbn [structure structure_str]. rewrite H_b64. reflexivity. }
+      split; [reflexivity|]. split; [apply R_leaf; reflexivity | intros _ ?; discriminate].
+    - (* datetime *) exists (VDatetime s), (JStr s). split.
+      { cbn [structure structure_str]. unfold structure_datetime.
+        match goal with H : replace_Z s = s |- _ => rewrite H end.
+        match goal with H : dt_parse s = Some s |- _ => rewrite H end. reflexivity. }
+      split; [reflexivity|]. split; [apply R_leaf; reflexivity | intros _ ?; discriminate].
+    - (* date *) exists (VDate s), (JStr s). split.
+      { cbn [structure structure_str]. match goal with H : date_parse s = Some s |- _ => rewrite H end. reflexivity. }
+      split; [reflexivity|]. split; [apply R_leaf; reflexivity | intros _ ?; discriminate].
+    - (* uuid *) exists (VUuid s), (JStr s). split.
+      { cbn [structure structure_str]. match goal with H : uuid_parse s = Some s |- _ => rewrite H end. reflexivity. }
+      split; [reflexivity|]. split; [apply R_leaf; reflexivity | intros _ ?; discriminate].
+    - (* time *) exists (VTime s), (JStr s). split.
+      { cbn [structure structure_str]. match goal with H : time_parse s = Some s |- _ => rewrite H end. reflexivity. }
+      split; [reflexivity|]. split; [apply R_leaf; reflexivity | intros _ ?; discriminate].
+    - (* enum *) exists (VStr s), (JStr s). split.
+      { cbn [structure structure_str]. match goal with H : mem_str s _ = true |- _ => rewrite H end. reflexivity. }
+      split; [reflexivity|]. split; [apply R_leaf; reflexivity | intros _ ?; discriminate].
+    - (* list *)
+      cbn [ty_ok] in Hok.
+      assert (HD : Forall (fun x => D x X) l).
+      { rewrite Forall_forall in *. intros x Hx. apply H; auto. }
+      destruct (list_de X l HD) as [vs [l' [E1 [E2 F]]]].
+      exists (VList vs), (JArr l'). split; [|split; [|split]].
+      + rewrite S_unfold. cbn [skl skd structure_node structure_nonopt].
+        rewrite (ty_ok_not_eager _ Hok), map_result_map, E1. reflexivity.
+      + rewrite U_unfold. cbn [ukl ukd unstructure_node unstructure_nonopt].
+        rewrite map_result_map, E2. reflexivity.
+      + apply R_list. exact F.
+      + intros _ ?. discriminate.
+    - (* dict *)
+      cbn [ty_ok] in Hok.
+      assert (HD : Forall (fun kv => D (snd kv) X) kvs).
+      { rewrite Forall_forall in *. intros x Hx. apply H; auto. }
+      destruct (dict_de X kvs HD) as [vs [kvs' [E1 [E2 F]]]].
+      exists (VDict vs), (JObj kvs'). split; [|split; [|split]].
+      + rewrite S_unfold. cbn [skl skd structure_node structure_nonopt].
+        rewrite (ty_ok_not_eager _ Hok), map_result_map. cbn [fst snd]. rewrite E1. reflexivity.
+      + rewrite U_unfold. cbn [ukl ukd unstructure_node unstructure_nonopt].
+        rewrite map_result_map. cbn [fst snd]. rewrite E2. reflexivity.
+      + apply R_dict. exact F.
+      + intros _ ?. discriminate.
+    - (* dataclass *)
+      match goal with Hk : lookup_cls ct c = Some ?k |- _ =>
+        apply (data_de c k kvs Hk); try assumption;
+        destruct (H_ct c k Hk) as [_ [_ [Htyok _]]] end.
+      intros key v Hin.
+      match goal with Hkeys : forall key v, In (key, v) kvs -> _ |- _ =>
+        destruct (Hkeys key v Hin) as [f [Hf [Hw Hcv]]] end.
+      exists f. split; [exact Hf|]. split; [exact Hw|].
+      rewrite Forall_forall in H. apply (H (key, v) Hin); [apply Htyok; exact Hf | exact Hcv].
+  Qed.
 End RoundTrip.
 
 (* ---------- only ValueError leaves structure_from_dict (the shape of its try/except) ---------- *)
@@ -456,6 +721,28 @@ Proof.
   cbn [c_fields k_demo v_demo].
   constructor; [apply I_int|]. constructor; [|constructor; [apply I_bytes | constructor]].
   cbn [snd f_ty]. apply I_some; [discriminate|]. apply I_list. constructor; [apply I_str | constructor].
+Qed.
+
+Lemma ct_demo_defaults : defaults_ok ct_demo.
+Proof.
+  intros c k f d Hk Hf Hd. unfold lookup_cls, ct_demo in Hk. cbn [find] in Hk.
+  destruct (c_id k_demo =? c); [|discriminate]. inversion Hk; subst k. clear Hk.
+  cbn in Hf. destruct Hf as [<-|[<-|[<-|[]]]]; cbn in Hd; try discriminate.
+  inversion Hd; subst d. left. split; [reflexivity | eexists; reflexivity].
+Qed.
+
+(* {"raw": <base64 of 01 02>, "id": 7} : the optional "Tags" key is absent *)
+Definition j_demo (b64enc : list N -> str) : json :=
+  JObj [([114;97;119], JStr (b64enc [1;2])); ([105;100], JInt 7)].
+Lemma j_demo_conforms : forall b64enc dt_parse date_parse uuid_parse time_parse,
+  conforms b64enc dt_parse date_parse uuid_parse time_parse ct_demo (TData 0) (j_demo b64enc).
+Proof.
+  intros. apply (C_data _ _ _ _ _ _ 0 k_demo); [reflexivity | | |].
+  - cbn. repeat constructor; cbn; intuition discriminate.
+  - intros key v [H | [H | []]]; inversion H; subst.
+    + eexists. split; [right; right; left; reflexivity|]. split; [reflexivity | apply C_bytes].
+    + eexists. split; [left; reflexivity|]. split; [reflexivity | apply C_int].
+  - intros f Hf Hd. cbn in Hf. destruct Hf as [<-|[<-|[<-|[]]]]; cbn in Hd; try discriminate; cbn; auto.
 Qed.
 
 Lemma demo_hooked : all_hooked ct_demo [0].
